@@ -117,6 +117,27 @@ func TestExh_C17(t *testing.T) {
 		row = append(row, p)
 	}
 	run(C17Case{Kind: "reg", Peers: append(row, good), Events: evs})
+	// peers that register several times on one connection: invalid attempts 60 ms apart, then
+	// silence / a disconnect / a valid registration clearly within or clearly after the timeout
+	tries := func(n int) []Reg {
+		var a []Reg
+		for i := 0; i < n; i++ {
+			a = append(a, []Reg{{Name: "", Idx: "10"}, {Name: "p", Idx: "1"}, {Name: "", Idx: "x"}}[i%3])
+		}
+		return a
+	}
+	for _, m := range []Peer{
+		{Final: finalValidLate, GapMs: 60, Attempts: tries(7)},
+		{Final: finalValidLate, GapMs: 100, Attempts: tries(4)},
+		{Final: finalValidLate, GapMs: 40, Attempts: tries(11)},
+		{Final: finalSilence, GapMs: 60, Attempts: tries(3)},
+		{Final: finalDisconnect, GapMs: 60, Attempts: tries(2)},
+		{Final: finalValidEarly, GapMs: 40, Attempts: tries(1)},
+		{Final: finalValidEarly, GapMs: 20, Attempts: tries(3)},
+	} {
+		m.Name, m.Idx, m.Mask, m.Stall = "retry", "10", 0, stallMulti
+		single(m)
+	}
 	r.SetExtra("sweep_cases", n)
 }
 
